@@ -76,21 +76,64 @@ theorem validateOpen_eq_rfc (c : Cfg) (o : OpenMsg) : validateOpen c o = rfcOpen
   · have : ¬ (o.hold = 1 ∨ o.hold = 2) := by omega
     simp [h5, this]
 
+/-- the nested loops of getASN visit the capabilities in order of appearance, whatever
+    optional parameters carry them -/
+theorem scanParams_flat (a : Nat) (ps : List OptParam) :
+    scanParams a ps = scanCaps a (flatCaps ps) := by
+  induction ps generalizing a with
+  | nil => rfl
+  | cons p r ih =>
+    cases p with
+    | unknown => simpa [scanParams, flatCaps] using ih a
+    | caps l =>
+      have happ : ∀ (b : Nat) (l1 l2 : List Cap), scanCaps b (l1 ++ l2) = scanCaps (scanCaps b l1) l2 := by
+        intro b l1 l2
+        induction l1 generalizing b with
+        | nil => rfl
+        | cons c r1 ih1 => cases c <;> simp [scanCaps, ih1]
+      simp [scanParams, flatCaps, ih, happ]
+
+theorem scanCaps_last (a : Nat) (l : List Cap) : scanCaps a l = (lastAs4 l).getD a := by
+  induction l generalizing a with
+  | nil => rfl
+  | cons c r ih =>
+    cases c with
+    | other => simpa [scanCaps, lastAs4] using ih a
+    | as4 v =>
+      simp only [scanCaps, lastAs4, ih]
+      cases lastAs4 r <;> simp [Option.orElse]
+
+/-- **open_layout_irrelevant** — the AS every FSM decision works with (ValidateOpenMsg, the
+    collision tie-break of isDominant, State.PeerAs and the peer type) is the value of the last
+    4-octet-AS capability wherever it sits, the My-AS field if there is none: two OPENs with the
+    same My-AS field and the same capabilities in order get the same AS however the
+    capabilities are spread over optional parameters and whatever other parameters lie between. -/
+theorem open_layout_irrelevant (w : OpenWire) :
+    getASN w = w.cap4.getD w.myas ∧
+    ∀ w' : OpenWire, w'.myas = w.myas → flatCaps w'.params = flatCaps w.params → getASN w' = getASN w := by
+  refine ⟨by simp [getASN, OpenWire.cap4, scanParams_flat, scanCaps_last], ?_⟩
+  intro w' h1 h2
+  simp [getASN, scanParams_flat, h1, h2]
+
+example : getASN ⟨4, asTrans, [.caps [.other], .unknown, .caps [.other, .as4 70002]], 1, 90⟩ = 70002 := by decide
+
 /-- RFC 6286 with RFC 6793: the "own identifier from an internal peer" test is made on the AS
     the OPEN really announces — the value of the 4-octet-AS capability when there is one —
     whatever the 2-octet My-AS field says (AS_TRANS for a speaker in a 4-octet AS). -/
 theorem bad_identifier_uses_real_as (c : Cfg) (w : OpenWire) (hv : w.version = 4)
     (hc : w.cap4 = some c.localAS) (hi : w.id = c.localID) :
     validateOpen c w.toMsg = some 3 := by
-  unfold validateOpen OpenWire.toMsg getASN
-  simp [hv, hc, hi]
+  have h := (open_layout_irrelevant w).1
+  unfold validateOpen OpenWire.toMsg
+  simp [hv, hc, hi, h]
 
-example : validateOpen ⟨70000, 1, 70000, 90, 30, 30, 0⟩ (OpenWire.toMsg ⟨4, asTrans, some 70000, 1, 90⟩) = some 3 := by
+example : validateOpen ⟨70000, 1, 70000, 90, 30, 30, 0⟩
+    (OpenWire.toMsg ⟨4, asTrans, [.caps [.other], .caps [.as4 70000]], 1, 90⟩) = some 3 := by
   decide
 
 /-- without the capability the My-AS field is the announced AS -/
 theorem getASN_nocap (w : OpenWire) (h : w.cap4 = none) : getASN w = w.myas := by
-  simp [getASN, h]
+  simp [(open_layout_irrelevant w).1, h]
 
 /-! ## the property -/
 
